@@ -1,8 +1,10 @@
+#ifndef JOB_UNPR
 void h_first_pri_fixed(void)
 {
     struct iterator_templ *it = (struct iterator_templ *)malloc(1); __CPROVER_assume(it != NULL);
     g_k = nondet_unsigned(); g_p = nondet_int(); g_plvl = nondet_int(); g_mask_from = nondet_int(); g_mask_to = nondet_int(); g_Mfrom = nondet_int(); g_Mto = nondet_int();
     g_fully = nondet_bool(); g_down = nondet_int(); g_down_i = nondet_int(); g_rec_ret = nondet_bool(); g_rec_calls = 0; g_rec_k = nondet_unsigned(); g_rec_p = nondet_int();
+    g_sets = 0;
     g_F = (struct forest *)malloc(1); g_ev = (struct edge_value *)malloc(1); g_U = NULL; __CPROVER_assume(g_F && g_ev);
     __CPROVER_assume(g_plvl > INT_MIN);
     _Bool r = iterator_templ__first_pri(it, g_k, g_p);
@@ -10,3 +12,17 @@ void h_first_pri_fixed(void)
     CANARY_IF(g_p != 0 && (int)g_k == -g_plvl); CANARY_IF(g_p != 0 && (int)g_k != -g_plvl && g_fully);
     CANARY_IF(g_p != 0 && (int)g_k != -g_plvl && !g_fully && g_Mto == g_Mfrom && g_mask_from != g_Mfrom); CANARY_IF(g_p != 0 && (int)g_k != -g_plvl && !g_fully && g_Mto != g_Mfrom);
 }
+#else
+void h_first_unpr_fixed(void)
+{
+    struct iterator_templ *it = (struct iterator_templ *)malloc(1); __CPROVER_assume(it != NULL);
+    g_k = nondet_unsigned(); g_p = nondet_int(); g_plvl = nondet_int(); g_mask_from = nondet_int(); g_mask_to = nondet_int(); g_Mfrom = nondet_int(); g_Mto = nondet_int();
+    g_fully = nondet_bool(); g_down = nondet_int(); g_down_i = nondet_int(); g_rec_ret = nondet_bool(); g_rec_calls = 0; g_rec_k = nondet_unsigned(); g_rec_p = nondet_int();
+    g_pri_ret = nondet_bool(); g_pri_calls = 0; g_pri_k = nondet_unsigned(); g_pri_p = nondet_int(); g_term_calls = 0; g_multi = nondet_bool(); g_sets = nondet_bool();
+    g_F = (struct forest *)malloc(1); g_ev = (struct edge_value *)malloc(sizeof(struct edge_value)); g_U = NULL; g_Uf = NULL; __CPROVER_assume(g_F && g_ev);
+    _Bool r = iterator_templ__first_unpr(it, g_k, g_p);
+    CANARY();
+    CANARY_IF(g_p != 0 && g_k == 0 && g_multi); CANARY_IF(g_p != 0 && g_k == 0 && !g_multi && g_sets); CANARY_IF(g_p != 0 && g_k != 0 && (int)g_k == g_plvl && g_sets);
+    CANARY_IF(g_p != 0 && g_k != 0 && (int)g_k != g_plvl && !g_sets);
+}
+#endif
